@@ -147,6 +147,9 @@ func runCase(c Case, o runOpts) (*hx.Failure, *report) {
 	opIdx := len(c.Prior)
 	lab := c.Op.label()
 	rep := &report{OpLabel: lab, KnownHits: map[string]*hx.Failure{}}
+	if c.Op.Filter != nil {
+		rep.Labels = append(rep.Labels, "case-filter:"+c.Op.Filter.Field+":"+c.Op.Filter.Op)
+	}
 
 	// --- fault-free twin: learns K and the success state
 	twin := s.build("main", opIdx)
@@ -742,7 +745,14 @@ func sweepText(o runOpts) string {
 	return fmt.Sprintf("every k = 1..K for cases with K <= %d, else %d positions stratified over storage-operation types (always first/last write, their neighbours, commit), plus one fault-free re-execution on the node that saw all the failures", o.MaxPoints, o.MaxPoints)
 }
 
-func TestC05(t *testing.T) {
+func TestC05(t *testing.T) { checkC05(t, drawCase) }
+
+// TestC05Filtered concentrates on filtered mutations whose filter is served by a secondary index
+// through more than one index scan (_in lists, _or branches) over contents that hold matching
+// documents: the partial-effect window of these calls spans several iterators.
+func TestC05Filtered(t *testing.T) { checkC05(t, drawFilteredCase) }
+
+func checkC05(t *testing.T, draw func(*rapid.T) Case) {
 	o := tierOpts()
 	if explore {
 		defer func() {
@@ -752,7 +762,7 @@ func TestC05(t *testing.T) {
 		}()
 	}
 	rapid.Check(t, func(t *rapid.T) {
-		c := drawCase(t)
+		c := draw(t)
 		var rep *report
 		f := hx.Guard("C05", func() *hx.Failure {
 			var f *hx.Failure
